@@ -18,6 +18,16 @@ use std::time::Instant;
 pub fn verif_root() -> PathBuf {
     PathBuf::from(std::env::var("VERIF_ROOT").unwrap_or_else(|_| "/verif".to_string()))
 }
+/// Depth multiplier of the thorough tier's generated cases ($VERIF_THOROUGH_SCALE, default 4; the quick tier is fixed work).
+pub fn scaled_cases(cases: u32, tier: Tier) -> u32 {
+    match tier {
+        Tier::Quick => cases,
+        Tier::Thorough => {
+            let k = std::env::var("VERIF_THOROUGH_SCALE").ok().and_then(|v| v.parse::<u32>().ok()).unwrap_or(4).clamp(1, 1000);
+            cases.saturating_mul(k)
+        }
+    }
+}
 /// The repository under test: $VERIF_REPO, default /repo.
 pub fn repo_root() -> String {
     std::env::var("VERIF_REPO").unwrap_or_else(|_| "/repo".to_string())
@@ -404,6 +414,7 @@ pub fn run_property<P: Property>(ctx: &RunCtx) -> i32 {
     }
 
     // 3. proptest shards
+    let cases_per_shard = scaled_cases(P::cases(ctx.tier), ctx.tier);
     if found.is_empty() && P::cases(ctx.tier) > 0 {
         let shards = P::shards(ctx.tier);
         let results: Vec<(Stats<P::Scenario>, Option<Found>)> = std::thread::scope(|scope| {
@@ -413,7 +424,7 @@ pub fn run_property<P: Property>(ctx: &RunCtx) -> i32 {
                 handles.push(scope.spawn(move || {
                     let seed = splitmix(ctx.seed ^ hash_of(P::ID) ^ (shard as u64).wrapping_mul(0xA24BAED4963EE407));
                     let config = Config {
-                        cases: P::cases(ctx.tier),
+                        cases: cases_per_shard,
                         failure_persistence: None,
                         rng_seed: RngSeed::Fixed(seed),
                         rng_algorithm: RngAlgorithm::ChaCha,
@@ -519,7 +530,7 @@ pub fn run_property<P: Property>(ctx: &RunCtx) -> i32 {
         serde_json::Value::Object(stats.excluded_known.iter().map(|(k, v)| (k.clone(), (*v).into())).collect()),
     );
     coverage.insert("proptest_shards".into(), P::shards(ctx.tier).into());
-    coverage.insert("proptest_cases_per_shard".into(), P::cases(ctx.tier).into());
+    coverage.insert("proptest_cases_per_shard".into(), cases_per_shard.into());
     for (k, v) in P::extra_coverage() {
         coverage.insert(k, v);
     }
